@@ -226,7 +226,8 @@ def write_clustal(names, rows, width=60, header="CLUSTAL W (1.83) multiple seque
                 ln += " %d" % run[k]
             out.append(ln)
         if cons:
-            out.append(" " * pad + "".join(" " for _ in range(len(rows[0][s:s + width]))))
+            w = len(rows[0][s:s + width])
+            out.append(" " * pad + "".join("*" if (i % 7) == 3 else (":" if (i % 11) == 5 else " ") for i in range(w)))
         out.append("")
     return eol.join(out) + eol
 
